@@ -25,17 +25,19 @@ PROP = dict(
                "attempt received by the server with destination / decoded ids / body length / n-th time, sleep, retry, per-event outcome, end of the request), Stop taking the batch map and returning, the metrics and error log after Stop. "
                "TLC accepts a log only if every line is the model's EnqueueF / CutF / PackF / RespondSet / WakeCode / StopBeginF / StopEnd step on the logged arguments, and checks after every line: TypeOK, OwnDestination, ExactlyOneBatch, "
                "OversizeCounted, BodyWithinLimit, CountWithinLimit, AtMostTwice, Timely, StopFlushes, GaugeExact, Conservation (each event in exactly one place: pending batch, sendBatch job, or outcome), ObsSound, QuietAfterStop.",
-    level_note="Randomized schedules chosen by the Go scheduler (yields at the clock's Now() and the metrics' Up/Down/Histogram), not exhaustive; the exhaustive exploration of the interleavings is C26's TLC-only 'fine' stage over the same functions. "
+    level_note="Randomized schedules chosen by the Go scheduler (yields at the clock's Now() and the metrics' Up/Down/Histogram; some enqueues are released when the clock is about to move so that they overlap the stale pass; in a third of the rounds "
+               "the producers are released together by a spin barrier for their i-th event to destination i so that batch creation collides), not exhaustive; the exhaustive exploration of the interleavings is C26's TLC-only 'fine' stage over the same functions. "
+               "Narrow windows without a yield point in them (two first enqueues for a fresh destination between the read-locked lookup and the write lock) are hit only now and then per run. "
                "The model's counters are compared with the real metrics only after Stop returned (the code updates them outside the locks). Stop is called after the last EnqueueEvent returned (C26's assumption; an overlapping call is a data race on eventBatches). "
                "Clock readings are bounded, not pinned (a new batch's start lies between the clock at the call and at the critical section). Families: b2 (MaxBatchSize 2, tick = BatchTimeout/4 = 1 unit), b3s2 (MaxBatchSize 3, "
-               "clock unit = half a tick so that batches start between ticks), b1 (every enqueue cuts), split (MaxBatchSize 7, events of 999 999 / 1 000 000 / 1 000 001 bytes: bodies split at 5 MB, oversize drops). "
+               "clock unit = half a tick so that batches start between ticks), b1 (every enqueue cuts), split (MaxBatchSize 6, events of 999 999 / 1 000 000 / 1 000 001 bytes: bodies split at 5 MB, oversize drops). "
                "The second cfg of each stage (Loose) is the alternative that accepts every convention the statement leaves open (stale cut before BatchTimeout, retry policy details).",
     assumptions=["clockwork.FakeClock is faithful; the stale-dispatch goroutine finishes a pass before the clock moves on (enforced by the driver)",
                  "no EnqueueEvent once Stop has been called", "event destinations are not mutated after enqueue"],
     stages=[
-        _trace("b2", 2, 1, {"quick": 6, "thorough": 40}),
-        _trace("b3s2", 3, 2, {"quick": 6, "thorough": 40}),
-        _trace("b1", 1, 1, {"quick": 4, "thorough": 20}, tiers=("thorough",)),
-        _trace("split", 7, 1, {"quick": 6, "thorough": 30}, mode="split", CX4_MAXROUNDS=12),
+        _trace("b2", 2, 1, {"quick": 5, "thorough": 35}),
+        _trace("b3s2", 3, 2, {"quick": 5, "thorough": 35}),
+        _trace("b1", 1, 1, {"quick": 4, "thorough": 15}, tiers=("thorough",)),
+        _trace("split", 6, 1, {"quick": 4, "thorough": 25}, mode="split", CX4_MAXROUNDS=8),
     ],
 )
